@@ -493,6 +493,14 @@ func c12R8(sorted []float64, p float64) *big.Float {
 	return d.Add(bf(sorted[j-1]), d.Mul(d, g))
 }
 
+// c12R8Index is floor(1/3 + p(n+1/3)) evaluated exactly: the interpolation
+// of the R8 percentile at p runs between order statistics #j and #j+1 (1-based).
+func c12R8Index(n int, p float64) int {
+	third := big.NewRat(1, 3)
+	h := new(big.Rat).Add(third, new(big.Rat).Mul(new(big.Rat).SetFloat64(p), new(big.Rat).Add(big.NewRat(int64(n), 1), third)))
+	return int(new(big.Int).Quo(h.Num(), h.Denom()).Int64())
+}
+
 func c12CheckDesc(c c12Desc) *kit.Fail {
 	xs := c12Floats(c.Xs)
 	n := len(xs)
@@ -626,6 +634,28 @@ func c12CheckDesc(c c12Desc) *kit.Fail {
 		}
 		prev = math.Max(prev, got)
 		if p >= 0 && p <= 1 {
+			// Inside a run of equal order statistics the percentile IS that
+			// value: at the knots on either side of p the definition gives it
+			// exactly (no interpolation), so monotonicity in p and the bounds
+			// (for a constant sample) leave no room, not even an ulp. The run
+			// must cover one order statistic more on each side than the
+			// bracket of p, so that a bracket chosen one off by rounding of
+			// the position still lies inside it.
+			if j := c12R8Index(n, p); true {
+				lo, hi := j-2, j+1
+				if lo < 0 {
+					lo = 0
+				}
+				if hi > n-1 {
+					hi = n - 1
+				}
+				if lo <= hi && sortedF[lo] == sortedF[hi] {
+					kit.Count("percentiles asked inside a run of equal order statistics (must be exact)", 1)
+					if got != sortedF[lo] {
+						return kit.Failf("percentile-flat-run", "Percentile(%v) (%s) = %.17g, but order statistics #%d..#%d are all %.17g: not monotone against the knots / outside the run", p, desc, got, lo+1, hi+1, sortedF[lo])
+					}
+				}
+			}
 			want := c12F64(c12R8(sortedF, p))
 			if !(math.Abs(got-want) <= pt) {
 				return kit.Failf("percentile-r8", "Percentile(%v) (%s) = %.17g, R8 definition gives %.17g (diff %g, allowed %g)", p, desc, got, want, got-want, pt)
